@@ -77,9 +77,9 @@ class Evaluator(object):
         cx = self.cx
         if sv.t == t:
             return sv
-        if isinstance(sv.t, TOpt) and not isinstance(t, (TOpt, TVal)) and self.spec:
+        if isinstance(sv.t, TOpt) and not isinstance(t, (TOpt, TVal, TObj)) and self.spec:
             return self.coerce(SV(sv.t.get(cx, sv.e), sv.t.inner), t, what, st)
-        if isinstance(sv.t, TOpt) and not isinstance(t, (TOpt, TVal)) and st is not None:
+        if isinstance(sv.t, TOpt) and not isinstance(t, (TOpt, TVal, TObj)) and st is not None:
             # flow-sensitive narrowing Opt[T] -> T: the value must be provably not None here
             g = z3.Not(sv.t.is_none(cx, sv.e))
             if not self.spec:
@@ -122,6 +122,9 @@ class Evaluator(object):
                 dom = z3.Store(dom, kk.e, z3.BoolVal(True))
                 mp = z3.Store(mp, kk.e, self.coerce(v, t.v, "dict literal value", st).e)
             return SV(t.mk(cx, dom, mp), t)
+        if isinstance(sv.t, TObj) and isinstance(t, TBool):
+            # an object of unknown dynamic type declared Bool is abstracted by its truthiness
+            return SV(self.truthy(sv), t)
         if isinstance(sv.t, TObj) and not isinstance(t, (TNone,)):
             # dynamic typing: an opaque object used at a concrete type (cast is an uninterpreted function)
             f = cx.func("obj_as_" + mangle(t.name), cx.Obj, t.sort(cx))
@@ -344,6 +347,10 @@ class Evaluator(object):
                 tv = self.truthy(v)
                 r = z3.If(tv, r, v.e) if is_and else z3.If(tv, v.e, r)
             return SV(r, t0)
+        # `opt or default`  (Opt[T] or T) -> T
+        if not is_and and len(vals) == 2 and isinstance(vals[0].t, TOpt) and vals[0].t.inner == vals[1].t:
+            a, b = vals
+            return SV(z3.If(self.truthy(a), a.t.get(self.cx, a.e), b.e), b.t)
         # `x or None` style with Opt result
         if not is_and and len(vals) == 2 and isinstance(vals[1].t, TNone) and not isinstance(vals[0].t, TBool):
             a = vals[0]
